@@ -466,6 +466,19 @@ def run_case(spec):
                             probs = H.ttlvref.check_response_envelope(r, tuple(fr["v"]) if from_batch else None)
                             for p in probs:
                                 buckets.append(("C10|response-envelope|" + core.norm_msg(p), p))
+                short = [ci for ci, c in enumerate(spec["clients"]) if len(results[ci]) < len(c["frames"])]
+                if short:
+                    # a session never got to answer all its requests: the scheduler found every
+                    # remaining session blocked (on the engine lock) with nobody left to release it
+                    buckets.append(("C10|requests-never-answered|sessions-blocked-for-good",
+                                    "sessions %r answered %r of %r requests; scheduler dead=%r; errors=%r"
+                                    % (short, [len(r) for r in results], [len(c["frames"]) for c in spec["clients"]],
+                                       s.dead, {t: repr(e)[:120] for t, e in s.errors.items()})))
+                    seen = {}
+                    for k, d in buckets:
+                        seen.setdefault(k, d)
+                    out.append((list(seen.items()), True, ["deadlock"], choices))
+                    continue
                 final = masked_snapshot(srv, template_uids)
                 order, depth = search.explain(observed, final)
                 if order is None:
